@@ -108,7 +108,22 @@ def gen_case(rng, tier):
     for i in range(n):
         r = row(range(1, 9))
         params.append({"row": r, "binds": [rng.choice([None, 100, 200, 300]), rng.choice([5, 6])]})
-    return {"uniques": uniques, "clauses": clauses, "table": table, "params": params, "form": form, "page": rng.choice([1, 2, 3, 1000]), "paramstyle": rng.choice(["qmark", "qmark", "named", "numeric"]), "seed": rng.randrange(1 << 30)}
+    return {
+        "uniques": uniques,
+        "clauses": clauses,
+        "table": table,
+        "params": params,
+        "form": form,
+        "page": rng.choice([1, 2, 3, 1000]),
+        "paramstyle": rng.choice(["qmark", "qmark", "named", "numeric"]),
+        # type of the data columns a, b: plain Integer, or a TypeDecorator defining
+        # bind_expression() / column_expression() (value preserving: x + 0)
+        "coltype": rng.choice(["int", "int", "bindexpr", "colexpr", "both"]),
+        # type given to bindparam() objects placed in SET / WHERE: Integer, none (takes the
+        # column's type), or the decorated type itself
+        "bptype": rng.choice(["int", "none", "none", "decorated"]),
+        "seed": rng.randrange(1 << 30),
+    }
 
 
 # ---------------------------------------------------------------------------- reference semantics
@@ -203,15 +218,22 @@ def sa_cond(w, t, ins, bp):
     return a < b if w[0] == "<" else a != b
 
 
-def make_table(uniques):
+def decorated_type(kind):
+    from harness.lib_dml import decorated_type as dt
+
+    return dt(kind)
+
+
+def make_table(uniques, coltype="int"):
     from sqlalchemy import Column, Integer, MetaData, Table, UniqueConstraint
 
+    DT = decorated_type(coltype)
     m = MetaData()
     extra = []
     for u in uniques:
         if u != [0]:
             extra.append(UniqueConstraint(*[COLS[c] for c in u]))
-    t = Table("t", m, Column("k", Integer, primary_key=True, autoincrement=False), Column("u", Integer), Column("a", Integer), Column("b", Integer), *extra)
+    t = Table("t", m, Column("k", Integer, primary_key=True, autoincrement=False), Column("u", Integer), Column("a", DT), Column("b", DT), *extra)
     return m, t
 
 
@@ -221,7 +243,13 @@ def build_stmt(case, t, flavour):
 
     ins = flavour.insert(t)
 
+    bpt = case.get("bptype", "int")
+
     def bp(i):
+        if bpt == "none":
+            return sa.bindparam("bp%d" % i)
+        if bpt == "decorated":
+            return sa.bindparam("bp%d" % i, type_=decorated_type("bindexpr" if case.get("coltype", "int") == "int" else case["coltype"]))
         return sa.bindparam("bp%d" % i, type_=sa.Integer)
 
     for cl in case["clauses"]:
@@ -291,7 +319,7 @@ def run_case(case):
         rng.shuffle(rows)
         return rows
 
-    m, t = make_table(case["uniques"])
+    m, t = make_table(case["uniques"], case.get("coltype", "int"))
     m.create_all(eng)
     with eng.begin() as c:
         for r in case["table"]:
@@ -430,7 +458,7 @@ def check_renderings(ctx, case):
     from sqlalchemy.dialects import mysql as mysql_d
     from sqlalchemy.dialects import postgresql as pg_d
 
-    m, t = make_table(case["uniques"])
+    m, t = make_table(case["uniques"], case.get("coltype", "int"))
     # --- PostgreSQL (single ON CONFLICT clause only)
     cl = case["clauses"][0]
     if cl["target"] is not None or cl["action"][0] == "N":
